@@ -176,6 +176,13 @@ func getPayeeOrDescription(tx *ast.Transaction) string {
 }
 
 func estimatePayeeRange(tx *ast.Transaction, payee string) ast.Range {
+	// The parser knows where the payee is written, whatever precedes it on the
+	// header line (secondary date, status, code, extra blanks).
+	if tx.PayeeRange.Start.Line != 0 {
+		return tx.PayeeRange
+	}
+
+	// A syntax tree built by hand has no positions: fall back to the usual layout.
 	startCol := tx.Date.Range.End.Column + 1
 	if tx.Status != ast.StatusNone {
 		startCol += 2
